@@ -1,5 +1,11 @@
 /* REAL bodies of Memory::OutputMemoryStream, extracted each run (no contracts); see ims_real.h. Proved against their contracts in C02 cursor.* */
 typedef struct { uint8_t* buffer_; size_t size_; } OMS;
+/* write(first, last) copies a SYMBOLIC number of octets: CBMC's built-in memcpy is imprecise there (measured: a source octet came
+   back changed), so units that depend on the copied content define TINS_MEMCPY_RANGE as a byte loop with an unwinding bound */
+#ifndef TINS_MEMCPY_RANGE
+#define TINS_MEMCPY_RANGE memcpy
+#endif
+static void* tins_copy_bytes(void* d, const void* s, size_t n) { for (size_t i = 0; i < n; ++i) ((uint8_t*)d)[i] = ((const uint8_t*)s)[i]; return d; }
 //@ func include/tins/memory_helpers.h "OutputMemoryStream::OutputMemoryStream" match "uint8_t* buffer, size_t total_sz"
 sig: static void OMS_ctor(OMS* this, uint8_t* buffer, size_t total_sz)
 class: OutputMemoryStream include/tins/memory_helpers.h
@@ -19,7 +25,7 @@ rule: write_value\(this->buffer_, value\) ==> memcpy(this->buffer_, value, n) /*
 sig: static void OMS_write_range(OMS* this, const uint8_t* start, const uint8_t* end)
 class: OutputMemoryStream include/tins/memory_helpers.h
 rule: std::distance\(start, end\) ==> (end - start)
-rule: memcpy\(this->buffer_, &\*start, length\) ==> memcpy(this->buffer_, start, length)
+rule: memcpy\(this->buffer_, &\*start, length\) ==> TINS_MEMCPY_RANGE(this->buffer_, start, length)
 //@ endfunc
 //@ func include/tins/memory_helpers.h "OutputMemoryStream::write" match "const uint8_t* ptr, size_t length"
 sig: static void OMS_write_buf(OMS* this, const uint8_t* value, size_t n)
